@@ -336,6 +336,7 @@ func DamageFen(fen string, rng *PRNG) (string, string) {
 // and later with a valid position / go depth 1 pair.
 func GenC16Session(seed uint64) *Scenario {
 	rng := NewPRNG(seed, "scenario/C16")
+	dupRng := NewPRNG(seed, "duplicate/C16")
 	sc := &Scenario{Prop: "C16", Kind: "uci", Seed: seed, Checks: []string{"c16", "c12", "c05"}, PollUs: 50}
 	sc.Cost = GenCost(rng, 20000, false)
 	optNow := map[string]string{}
@@ -377,6 +378,14 @@ func GenC16Session(seed uint64) *Scenario {
 		}
 		st.Orig = line
 		st.Fault = "F7_" + kind
+		if cmd0 := strings.Fields(line)[0]; !audit && kind != "overlong" && cmd0 != "go" && !strings.HasPrefix(strings.TrimSpace(d), "go") && dupRng.Chance(0.3) {
+			// duplicated delivery: the very same damaged line arrives once
+			// more (a sender that repeats what was not acknowledged). Drawn
+			// from a stream of its own.
+			st2 := add(int64(dupRng.Range(0, 3000)), "damaged", d)
+			st2.Orig = line
+			st2.Fault = "F7_duplicate_line"
+		}
 		cmd := strings.Fields(line)[0]
 		if cmd == "go" || strings.HasPrefix(strings.TrimSpace(d), "go") {
 			// the damaged line may have started a search: stop it
